@@ -20,7 +20,7 @@ LEVEL = "exploration"
 SHARDS = {"quick": 1, "thorough": 16}
 REQUIRED = ("bits_patterns_enumerated", "bits_matching_bytes_judged", "patterns_built", "regexps_built", "corpus_strings_judged", "equal_and_matched", "unequal_and_rejected_by_regexp",
             "filter_equivalence_checked", "patterns_all_any", "patterns_with_bits_partially_fixed", "patterns_with_constrained_any",
-            "patterns_with_any_size_field", "metachar_values_fixed")
+            "patterns_with_any_size_field", "metachar_values_fixed", "source_string_parsed_before_and_after_deriving_the_regexp")
 MIN_NONTRIVIAL = 150
 RULE = {
     "quick": "~330 flat generated declarations (Int all widths/orders, Bits runs, Data const/field/expr/callable/marker/kept-regex/EOS, class "
@@ -209,12 +209,33 @@ def one_source(run, bench, rng, raw, mr, corpus_base):
             v = pv.vals.get(f["name"])
             if f["name"] in fixed and isinstance(v, bytes) and any(c in META for c in v):
                 run.count("metachar_values_fixed")
+        # what the class makes of the source string BEFORE the expression is derived: deriving it evaluates the declaration's size
+        # expressions on placeholders, and whatever that leaves behind must not change later parses (filter() with the pre-filter
+        # derives the expression first and parses afterwards; without it nothing is derived)
+        try:
+            u0 = cls.unpack(raw, silent=True)
+            before = None if u0 is None else monitors.pkt_to_pv(fam, fam["root"], u0)
+        except Exception:
+            before = None
         try:
             rx = pattern.as_regular_expression()
         except Exception as e:
             run.violation("as_regular_expression() raised %s: %s" % (type(e).__name__, str(e)[:120]), witness, None)
             continue
         run.count("regexps_built")
+        if before is not None:
+            run.count("source_string_parsed_before_and_after_deriving_the_regexp")
+            try:
+                u1 = cls.unpack(raw, silent=True)
+                after = None if u1 is None else monitors.pkt_to_pv(fam, fam["root"], u1)
+            except Exception as e:
+                after = "raised %s" % type(e).__name__
+            if after != before:
+                run.violation("deriving the regular expression changes what the class parses afterwards: filter() with the pre-filter "
+                              "loses packets that filter() without it returns",
+                              dict(witness, string=b2j(raw), regexp=b2j(rx.pattern), before=before.to_json(),
+                                   after=after.to_json() if hasattr(after, "to_json") else repr(after)), None)
+                continue
         corpus = [raw] + list(corpus_base) + list(near_misses(rng, raw, mr, set(fixed)))
         for _ in range(3):
             corpus.append(bytes(rng.choice(b"\x00\x01ab;\n\xff") for _ in range(rng.randint(0, 12))))
